@@ -81,6 +81,32 @@ theorem normalizeT_table_sensitive (f : CaseFns) (hf : f.Ok) (c : TableCtx) (i :
     · simp [normalizeT, h]
     · simp [normalizeT, h, hf.lower_idem]
 
+/-! ## the schema's memo of normalised names -/
+
+/-- **schema_name_memo_sound.**  `MappingSchema._normalize_name` with its memo answers exactly what the un-memoised
+    normalisation answers — for every call history — provided the memo key contains the role (`is_table`) OR the
+    dialect's normalisation does not depend on the role (every dialect except the table-sensitive ones). -/
+theorem schema_name_memo_sound (hasRole : Bool) (f : CaseFns) (ts : Bool) (s : Strategy) (h : hasRole = true ∨ ts = false)
+    (memo : NameMemo) (hm : MemoOk hasRole f ts s memo) (k : NKey) :
+    (normMemo hasRole f ts s memo k).1 = normName f ts s k ∧ MemoOk hasRole f ts s (normMemo hasRole f ts s memo k).2 :=
+  normMemo_sound hasRole f ts s h memo hm k
+
+example (f : CaseFns) (s : Strategy) : MemoOk true f true s [] := by intro e he; simp at he
+
+/-- the memo key the source uses today (re-read each run) contains every input: name, quoting, dialect, role, normalize -/
+theorem generated_schema_memo_key_ok :
+    ["name_str", "quoted", "dialect", "is_table", "normalize"].all (fun x => Generated.C10.schemaNameMemoKey.contains x) = true := by
+  decide
+
+/-- and the role is needed: under a table-sensitive dialect (BigQuery) a memo keyed without it answers the COLUMN `Tbl`
+    with what it stored for the TABLE `Tbl` (`Tbl` instead of `tbl`); keyed with the role both are right; for a
+    role-insensitive dialect the key without the role is harmless -/
+theorem schema_name_memo_without_role_witness :
+    normMemoRun false asciiFns true .caseInsensitive [] [⟨"Tbl", false, true⟩, ⟨"Tbl", false, false⟩] = ["Tbl", "Tbl"]
+    ∧ normMemoRun true asciiFns true .caseInsensitive [] [⟨"Tbl", false, true⟩, ⟨"Tbl", false, false⟩] = ["Tbl", "tbl"]
+    ∧ normMemoRun false asciiFns false .caseInsensitive [] [⟨"Tbl", false, true⟩, ⟨"Tbl", false, false⟩] = ["tbl", "tbl"] := by
+  decide +kernel
+
 /-! ## lexical visibility of CTE names -/
 
 /-- **cte_sibling_independence.**  With `Scope.branch` building a new `cte_sources` mapping (what the source does;
